@@ -366,8 +366,9 @@ def run_cases(ctx, arch, ymodel, stlf, pidx, files, st, tag):
                                                  "file": c["file"][:1500], "difference": d})
 
 
-def run_e2e_correspondence(ctx, volume, shipped=("zen2", "spr")):
-    """`volume` synthetic models x 2-3 kernels x 4-5 variants, and `volume` kernels on each of the shipped models"""
+def run_e2e_correspondence(ctx, volume, shipped=("zen2", "spr"), shipped_volume=None):
+    """`volume` synthetic models x 2-3 kernels x 4-5 variants, and `shipped_volume` (default: `volume`) kernels on each of
+    the shipped models"""
     import warnings
 
     warnings.filterwarnings("ignore")
@@ -406,7 +407,7 @@ def run_e2e_correspondence(ctx, volume, shipped=("zen2", "spr")):
         raw = pressure.load_raw(arch)
         mm = MachineModel(arch=arch)
         stlf, pidx = dgenc.model_params(mm)
-        for ki in range(volume):
+        for ki in range(volume if shipped_volume is None else shipped_volume):
             rng = random.Random(ctx.rng.randrange(1 << 62))
             body = [b for b in dgenc.gen_x86_kernel(rng, rng.randint(3, 10), mem=True, npool=rng.choice([2, 3, 4]))
                     if not re.search(r"[A-Za-z_.][\w.]*\(", b)]
